@@ -98,6 +98,19 @@ def prove(prop, log):
     if hits:
         res["ok"] = False
         res["failed"].append("forbidden constructs: " + ", ".join(hits[:10]))
+    # thorough tier: independent re-check of the compiled modules with leanchecker
+    if os.environ.get("VERIF_TIER_EFFECTIVE") == "thorough":
+        import subprocess
+        mods = [os.path.relpath(f, C.LEAN)[:-5].replace(os.sep, ".") for f in C.import_closure(list(prop.LEAN_TARGETS))]
+        try:
+            p = subprocess.run(["lake", "env", "leanchecker"] + mods, cwd=C.LEAN, stdout=subprocess.PIPE,
+                               stderr=subprocess.STDOUT, timeout=3000)
+            res["leanchecker"] = {"modules": len(mods), "rc": p.returncode}
+            if p.returncode != 0:
+                res["ok"] = False
+                res["failed"].append("leanchecker: " + p.stdout.decode(errors="replace")[-400:])
+        except Exception as e:
+            res["leanchecker"] = {"error": repr(e)}
     # axioms
     by_mod = {}
     for mod, thm, _ in prop.THEOREMS:
@@ -133,6 +146,7 @@ def main(prop, argv):
         return 1 if r.get("violates") else 0
 
     log = []
+    os.environ["VERIF_TIER_EFFECTIVE"] = args.tier
     try:
         pr = prove(prop, log)
     except Exception:
@@ -209,7 +223,8 @@ def main(prop, argv):
     nontrivial = len(out.nontrivial)
     coverage = {
         "obligations": pr["obligations"], "discharged": pr["discharged"],
-        "checker_cmd": "cd lean && lake build %s cldriver && lake env lean <#print axioms of every theorem>" % " ".join(prop.LEAN_TARGETS),
+        "checker_cmd": "cd lean && lake build %s cldriver && lake env lean <#print axioms of every theorem>%s" % (
+            " ".join(prop.LEAN_TARGETS), " && lake env leanchecker <import closure>" if args.tier == "thorough" else ""),
         "trusted_base": list(getattr(prop, "TRUSTED", [])) + [
             "Lean 4.33 kernel; axioms allowed: propext, Classical.choice, Quot.sound",
             "harness/translate.py (regex/table translator), validated by the rx.* correspondence",
@@ -221,7 +236,7 @@ def main(prop, argv):
         "contracts": out.contracts, "translate": pr["translate"],
         "proof_failures": pr["failed"], "disagreements": len(out.disagreements),
         "known_findings_hit": sorted(hit), "escalated_search": escalated, "notes": out.notes,
-        "fingerprints_changed": fp_changed, "budget_scale": scale,
+        "fingerprints_changed": fp_changed, "budget_scale": scale, "leanchecker": pr.get("leanchecker"),
     }
     C.write_evidence(prop.ID, args.tier, seed, coverage, list(getattr(prop, "ASSUMPTIONS", [])),
                      time.time() - t0, len(new) + (1 if (broken and not new) else 0))
